@@ -11,7 +11,9 @@ import (
 )
 
 // gobModel decodes a payload the way the format is documented (version 1):
-//   [0] version  [1] mode<<5 | (acc+1)<<3 | form<<1 | neg  [2:6] prec  [6:10] exp  [10:] mantissa (big endian words)
+//
+//	[0] version  [1] mode<<5 | (acc+1)<<3 | form<<1 | neg  [2:6] prec  [6:10] exp  [10:] mantissa (big endian words)
+//
 // It returns ok=false when the payload is not the encoding of a canonical Decimal.
 func gobModel(buf []byte) (o Obs, ok bool) {
 	if len(buf) == 0 {
